@@ -713,14 +713,24 @@ func (s *Stream) prepareClose(payload []byte) {
 //
 // This call blocks.
 func (s *Stream) Flush() (err error) {
+	// A previous flush may have been interrupted (e.g. would-block on a non-blocking transport) after a frame was
+	// serialized into the write buffer: send what is left of it first.
+	if s.dst.ReadLen() > 0 {
+		if _, err = s.dst.WriteTo(s.stream); err != nil {
+			return err
+		}
+	}
+
 	flushed := 0
 	for i := 0; i < len(s.pendingFrames); i++ {
 		_, err = s.codecConn.WriteNext(*s.pendingFrames[i])
+		// Whatever the transport did with the bytes, the frame is serialized into the write buffer by now: it must
+		// not be encoded a second time by a later flush.
+		s.releaseFrame(s.pendingFrames[i])
+		flushed++
 		if err != nil {
 			break
 		}
-		s.releaseFrame(s.pendingFrames[i])
-		flushed++
 	}
 	s.pendingFrames = s.pendingFrames[flushed:]
 
